@@ -11,265 +11,154 @@ each `c11_prefix_*_witness` shows, for one finding, that the code as it is
 -/
 namespace Uft.NonLocal
 
+/-! The statements are about the code as it is now (`Fix.current`, which is `Fix.all` once every
+    libmcount finding of C11 is repaired; replay's longjmp fix-up is `replayCurrent`).  The proofs
+    (`rep_*`) are in Uft/Lemmas/NonLocal.lean. -/
+
 /-- Main invariant: whatever the program does next — call (hooked by mcount/fentry, through
     the PLT, or not at all; also from a landing pad), return, tail call, setjmp, longjmp to any
     live jmp_buf, throw, one step of unwinding, _Unwind_Resume, catch, pthread_exit, exit, the
-    thread destructor — a machine that is in step stays in step.  (A signal handler is a `call`
-    at an arbitrary point, see `c11_signal_transparent`.)  `vforkExec` is in the executable model
-    and in the correspondence harness only. -/
+    thread destructor, fork (either side), exec, vfork+exec — a machine that is in step stays in
+    step.  (A signal handler is a `call` at an arbitrary point, see `c11_signal_transparent`.) -/
 theorem c11_instep_invariant {m : M} {op : Op} (hi : InStep m) (hw : WellFormedOp m op)
-    (hv : ∀ a b c d e, op ≠ .vforkExec a b c d e) : InStep (step Fix.all m op) := by
+    (hv : ∀ a b c d e, op ≠ .vforkExec a b c d e) : InStep (step Fix.current m op) :=
+  rep_instep_invariant hi hw hv
+
+/-- the same including vfork+exec (the hypothesis of `c11_instep_invariant` is not needed) -/
+theorem c11_instep_invariant_all {m : M} {op : Op} (hi : InStep m) (hw : WellFormedOp m op) :
+    InStep (step Fix.current m op) := by
   rcases hi with hh | hi
   · left; rw [step_halted _ hh]; exact hh
-  · cases op with
-    | call k child slot orig fpw => right; exact inv_call hi hw
-    | ret =>
-      right
-      obtain ⟨f, fs, hf⟩ : ∃ f fs, m.fs = f :: fs := by
-        cases h : m.fs with
-        | nil => exact absurd h hw.1
-        | cons f fs => exact ⟨f, fs, rfl⟩
-      exact (ret_spec hi hw hf).1
-    | tailcall k child => right; exact inv_tailcall hi hw
-    | setjmp j child slot orig => right; exact (inv_setjmp hi hw).1
-    | longjmp j child slot orig =>
-      right
-      obtain ⟨jb, _, h, _⟩ := inv_longjmp hi hw
-      exact h
-    | throw => right; exact inv_throw hi hw
-    | unwind => right; exact inv_unwind hi hw
-    | resume => right; exact inv_resume hi hw
-    | catch_ fa => right; exact inv_catch hi hw
-    | pthreadExit child slot orig => right; exact inv_pthreadExit hi hw
-    | exit child slot orig => exact instep_exit child slot orig
-    | vforkExec a b c d e => right; exact (inv_vforkExec hi hw).1
-    | mtdDtor => right; exact inv_mtdDtor hi hw
+  · by_cases hv : ∀ a b c d e, op ≠ .vforkExec a b c d e
+    · exact rep_instep_invariant (Or.inr hi) hw hv
+    · cases op with
+      | vforkExec a b c d e => right; exact (inv_vforkExec hi hw).1
+      | _ => exact absurd (by intro a b c d e h; cases h) hv
 
 /-- vfork + exec: the parent comes back from vfork to its caller although the child used the shared
     shadow stack in between (prepare_vfork / setup_vfork / restore_vfork) -/
 theorem c11_vfork_returns {m : M} (hi : Inv m) {child slot orig echild eorig : Nat}
     (hw : WellFormedOp m (.vforkExec child slot orig echild eorig)) :
-    (step Fix.all m (.vforkExec child slot orig echild eorig)).last = orig := (inv_vforkExec hi hw).2
+    (step Fix.current m (.vforkExec child slot orig echild eorig)).last = orig := rep_vfork_returns hi hw
 
-/-- non-terminal steps keep the machine running and in step -/
-theorem inv_step_nonterminal {m : M} {op : Op} (hi : Inv m) (hw : WellFormedOp m op) (hnt : op.noDepthClaim = false) :
-    Inv (step Fix.all m op) := by
-  cases op with
-  | call k child slot orig fpw => exact inv_call hi hw
-  | ret =>
-    obtain ⟨f, fs, hf⟩ : ∃ f fs, m.fs = f :: fs := by
-      cases h : m.fs with
-      | nil => exact absurd h hw.1
-      | cons f fs => exact ⟨f, fs, rfl⟩
-    exact (ret_spec hi hw hf).1
-  | tailcall k child => exact inv_tailcall hi hw
-  | setjmp j child slot orig => exact (inv_setjmp hi hw).1
-  | longjmp j child slot orig =>
-    obtain ⟨jb, _, h, _⟩ := inv_longjmp hi hw
-    exact h
-  | throw => exact inv_throw hi hw
-  | unwind => exact inv_unwind hi hw
-  | resume => exact inv_resume hi hw
-  | catch_ fa => exact inv_catch hi hw
-  | pthreadExit child slot orig => simp [Op.noDepthClaim] at hnt
-  | exit child slot orig => simp [Op.noDepthClaim] at hnt
-  | vforkExec a b c d e => simp [Op.noDepthClaim] at hnt
-  | mtdDtor => exact inv_mtdDtor hi hw
+/-- fork: both the parent and the child (which runs on a copy of the shadow stack) stay in step and
+    come back from fork to the caller -/
+theorem c11_fork_both_sides {m : M} (hi : Inv m) {inChild : Bool} {child slot orig : Nat}
+    (hw : WellFormedOp m (.fork inChild child slot orig)) :
+    Inv (step Fix.current m (.fork inChild child slot orig)) := (inv_fork hi hw).1
 
-/-- the invariant is not vacuous: the initial machine is in step and so is a machine inside
-    two nested hooked calls with a setjmp taken -/
-example : Inv M.init :=
-  ⟨rfl, rfl, rfl, ⟨[], rfl, fun _ => rfl⟩, List.Pairwise.nil, (fun _ h => by cases h), (fun _ h => by cases h),
-    (fun _ => TopOk_of_nil (fs := []) rfl), (fun _ _ h => by cases h), (fun _ _ h => by cases h)⟩
+/-- the invariant is not vacuous: the initial machine is in step -/
+example : Inv M.init := inv_init
 
 /-- Under the invariant a return goes to the real caller: the program behaves as untraced.
     (Through a tail-call chain this takes one exit hook per chain element.) -/
 theorem c11_every_return_reaches_caller {m : M} (hi : Inv m) (hw : WellFormedOp m .ret) {f : Frame} {fs : List Frame}
     (hf : m.fs = f :: fs) :
-    (step Fix.all m .ret).last = f.orig ∧ (step Fix.all m .ret).fs = fs := by
-  refine ⟨(ret_spec hi hw hf).2, ?_⟩
-  rw [step_ret_eq _ hi.nh hf]
+    (step Fix.current m .ret).last = f.orig ∧ (step Fix.current m .ret).fs = fs :=
+  rep_every_return_reaches_caller hi hw hf
 
 /-- longjmp lands behind the setjmp call of the target jmp_buf, with exactly the frames of
     that moment, and the shadow stack follows (by `c11_instep_invariant`) -/
 theorem c11_longjmp_reaches_setjmp {m : M} (hi : Inv m) {j child slot orig : Nat}
     (hw : WellFormedOp m (.longjmp j child slot orig)) :
-    ∃ jb, m.rjb.lookup j = some jb ∧ (step Fix.all m (.longjmp j child slot orig)).last = jb.sorig ∧
-      (step Fix.all m (.longjmp j child slot orig)).fs = jb.frames := by
-  obtain ⟨jb, h1, _, h3, h4⟩ := inv_longjmp hi hw
-  exact ⟨jb, h1, h3, h4⟩
+    ∃ jb, m.rjb.lookup j = some jb ∧ (step Fix.current m (.longjmp j child slot orig)).last = jb.sorig ∧
+      (step Fix.current m (.longjmp j child slot orig)).fs = jb.frames :=
+  rep_longjmp_reaches_setjmp hi hw
 
 /-- setjmp itself returns to its caller -/
 theorem c11_setjmp_returns {m : M} (hi : Inv m) {j child slot orig : Nat}
     (hw : WellFormedOp m (.setjmp j child slot orig)) :
-    (step Fix.all m (.setjmp j child slot orig)).last = orig := (inv_setjmp hi hw).2
+    (step Fix.current m (.setjmp j child slot orig)).last = orig := rep_setjmp_returns hi hw
 
 /-- While an exception is in flight every live return slot holds the real return address:
     the C++ unwinder, which walks the stack through these slots, sees the untraced stack. -/
 theorem c11_unwinder_sees_real_addresses {m : M} (hi : Inv m) (hw : WellFormedOp m .throw) :
-    ∀ f ∈ (step Fix.all m .throw).fs, (step Fix.all m .throw).sh.mem f.slot = f.orig :=
-  (inv_throw hi hw).exc (by simp [step, hi.nh, cxaThrow])
+    ∀ f ∈ (step Fix.current m .throw).fs, (step Fix.current m .throw).sh.mem f.slot = f.orig :=
+  rep_unwinder_sees_real_addresses hi hw
 
 /-- The depth bookkeeping survives every non-terminal step: `record_idx` is the number of
     shadow entries and every entry's `depth` is the number of entries below it (also in every
     jmp_buf copy). -/
 theorem c11_trace_depth_invariant {m : M} {op : Op} (hi : Inv m) (ht : TraceInv m.sh) (hw : WellFormedOp m op)
-    (hnt : op.noDepthClaim = false) : TraceInv (step Fix.all m op).sh :=
-  trace_step hi ht hw hnt
+    (hnt : op.noDepthClaim = false) : TraceInv (step Fix.current m op).sh :=
+  rep_trace_depth_invariant hi ht hw hnt
 
 /-- After a longjmp or a catch (or any other non-terminal step that leaves no exception in
     flight) the depth counter is the true nesting depth — the number of hooked logical calls that
     are open on the real stack — and the depths stored in the shadow entries are
     n-1, …, 0; so the records of every later call (entryRec/exitRec copy `depth`) carry the true depth. -/
 theorem c11_trace_depth_after_jump {m : M} {op : Op} (hi : Inv m) (ht : TraceInv m.sh) (hw : WellFormedOp m op)
-    (hnt : op.noDepthClaim = false) (hx : (step Fix.all m op).sh.inExc = false) :
-    (step Fix.all m op).sh.recIdx = logicalDepth (step Fix.all m op).fs ∧
-    (step Fix.all m op).sh.rs.map Ent.depth = descFrom (logicalDepth (step Fix.all m op).fs) := by
-  have ht' := trace_step hi ht hw hnt
-  have hi' := inv_step_nonterminal hi hw hnt
-  obtain ⟨dead, hc, hd0⟩ := hi'.ctl
-  have hd : dead = [] := hd0 hx
-  subst hd
-  have hl : (step Fix.all m op).sh.rs.length = logicalDepth (step Fix.all m op).fs := by
-    have := congrArg List.length hc
-    simpa [expFrames_length] using this
-  exact ⟨by rw [ht'.idx, hl], by rw [ht'.depths, hl]⟩
+    (hnt : op.noDepthClaim = false) (hx : (step Fix.current m op).sh.inExc = false) :
+    (step Fix.current m op).sh.recIdx = logicalDepth (step Fix.current m op).fs ∧
+    (step Fix.current m op).sh.rs.map Ent.depth = descFrom (logicalDepth (step Fix.current m op).fs) :=
+  rep_trace_depth_after_jump hi ht hw hnt hx
 
 /-- the entry pushed by a hooked call carries the true nesting depth -/
 theorem c11_entry_depth_true {m : M} {k : Kind} {child slot orig fpw : Nat} (hi : Inv m) (ht : TraceInv m.sh)
     (hw : WellFormedOp m (.call k child slot orig fpw)) (hk : k ≠ .none) :
-    ((step Fix.all m (.call k child slot orig fpw)).sh.rs.head?).map Ent.depth = some (logicalDepth m.fs) := by
-  have hx : (step Fix.all m (.call k child slot orig fpw)).sh.inExc = false := by
-    have hstep : (step Fix.all m (.call k child slot orig fpw)).sh =
-        hookEntry Fix.all (progWrite m.sh slot orig fpw) k slot child := by
-      simp [step, hi.nh, progWrite]
-    rw [hstep]
-    rcases Bool.eq_false_or_eq_true (progWrite m.sh slot orig fpw).inExc with he | he
-    · cases k with
-      | none => exact absurd rfl hk
-      | mcount => simp only [hookEntry]; rw [mcountEntry_exc _ he]; simp [excPre]
-      | plt => simp only [hookEntry]; rw [plthookEntry_plain_exc he]; simp [excPre]
-    · cases k with
-      | none => exact absurd rfl hk
-      | mcount => simp only [hookEntry]; rw [mcountEntry_noexc _ he]; simpa using he
-      | plt => simp only [hookEntry]; rw [plthookEntry_plain_noexc _ he]; simpa using he
-  obtain ⟨_, h2⟩ := c11_trace_depth_after_jump hi ht hw rfl hx
-  have hfs : (step Fix.all m (.call k child slot orig fpw)).fs = ⟨slot, orig, chainOf k child⟩ :: m.fs := by
-    simp [step, hi.nh]
-  rw [hfs] at h2
-  have hld : logicalDepth (⟨slot, orig, chainOf k child⟩ :: m.fs) = logicalDepth m.fs + 1 := by
-    rw [chainOf_hooked hk]; simp [logicalDepth]; omega
-  rw [hld] at h2
-  cases hr : (step Fix.all m (.call k child slot orig fpw)).sh.rs with
-  | nil => rw [hr] at h2; simp [descFrom] at h2
-  | cons e r =>
-    rw [hr] at h2
-    simp only [List.map_cons, descFrom, List.cons.injEq] at h2
-    simp [h2.1]
+    ((step Fix.current m (.call k child slot orig fpw)).sh.rs.head?).map Ent.depth = some (logicalDepth m.fs) :=
+  rep_entry_depth_true hi ht hw hk
 
 /-- Replay (repaired fix-up): on every record stream that is locally coherent — which is how the
     shadow stack emits it: calls nest, returns close the innermost call, and the record after a
     longjmp ENTRY is the second EXIT of a setjmp whose ENTRY was seen at that depth — every record
     is displayed at its record depth, also after a longjmp to a jmp_buf that is not the latest. -/
 theorem c11_replay_depth_coherent (l : List RRec) (h : coherent CSt.init l = true) :
-    rrun true RSt.init l = l.map (·.depth) :=
-  rrun_coherent l RSt.init CSt.init ⟨rfl, (fun h => by cases h), (fun _ h => by cases h), rfl⟩ h
+    rrun true RSt.init l = l.map (·.depth) := rep_replay_depth_coherent l h
+
+/-- Replay as it is (one global setjmp_depth, finding C11-LONGJMP-DEPTH open): the same holds on the
+    coherent streams in which every longjmp goes to the jmp_buf armed last; the witness
+    `c11_prefix_longjmp_depth_witness` shows that the hypothesis cannot be dropped. -/
+theorem c11_replay_depth_asis_partial (l : List RRec) (h : coherent CSt.init l = true)
+    (hl : latestOnly CSt.init l = true) : rrun replayCurrent RSt.init l = l.map (·.depth) :=
+  rrun_asis l RSt.init CSt.init rinvA_init h hl
+
+/-! ### whole histories: from the first instruction of the program -/
+
+/-- Every history of well-formed steps from the initial machine (calls of any kind, returns, tail
+    calls, setjmp/longjmp, throw/unwind/catch/resume, fork in the parent, exec, the thread destructor)
+    keeps the machine in step with correct depth bookkeeping at every point. -/
+theorem c11_history_in_step (ops : List Op) (h : History M.init ops) :
+    Inv (run Fix.current M.init ops) ∧ TraceInv (run Fix.current M.init ops).sh := by
+  obtain ⟨c', a1, a2, _, _⟩ := history_run ops M.init CSt.init inv_init traceInv_init streamInv_init h
+  exact ⟨a1, a2⟩
+
+/-- `History` is satisfiable: main is called and returns -/
+example : History M.init [.call .mcount 0 60 1000 61, .ret] := by
+  refine ⟨⟨by decide, by simp [M.init], by decide, by simp [M.init, Sh.init], by simp⟩, by simp [SymOk, okKind, symKind], ?_⟩
+  refine ⟨⟨?_, ?_⟩, trivial, trivial⟩
+  · simp [step, M.init]
+  · simp [step, M.init, Sh.init, hookEntry, mcountEntry, pushHook]
+
+/-- … and the records libmcount wrote for the task along such a history form a locally coherent
+    stream (this is what links the hooks to replay's hypothesis) … -/
+theorem c11_history_stream_coherent (ops : List Op) (h : History M.init ops) :
+    coherent CSt.init (taskStream (run Fix.current M.init ops).sh.out) = true := by
+  obtain ⟨c', _, _, a3, _⟩ := history_run ops M.init CSt.init inv_init traceInv_init streamInv_init h
+  rw [coherent_iff_crun, a3.ok.run]; rfl
+
+/-- … so the repaired replay shows every record of every such history at its recorded depth … -/
+theorem c11_history_replay_depth (ops : List Op) (h : History M.init ops) :
+    rrun true RSt.init (taskStream (run Fix.current M.init ops).sh.out) =
+      (taskStream (run Fix.current M.init ops).sh.out).map (·.depth) :=
+  rep_replay_depth_coherent _ (c11_history_stream_coherent ops h)
+
+/-- … and replay as it is does on the histories whose longjmps go to the jmp_buf armed last. -/
+theorem c11_history_replay_depth_asis_partial (ops : List Op) (h : History M.init ops)
+    (hl : latestOnly CSt.init (taskStream (run Fix.current M.init ops).sh.out) = true) :
+    rrun replayCurrent RSt.init (taskStream (run Fix.current M.init ops).sh.out) =
+      (taskStream (run Fix.current M.init ops).sh.out).map (·.depth) :=
+  c11_replay_depth_asis_partial _ (c11_history_stream_coherent ops h) hl
 
 /-! ### signal handlers: a balanced history at an arbitrary point -/
-
-/-- well-nested calls and returns: what a (traced or untraced) signal handler and everything it
-    calls do between the arrival of the signal and sigreturn -/
-inductive Balanced : List Op → Prop
-  | nil : Balanced []
-  | wrap {k : Kind} {child slot orig fpw : Nat} {h1 h2 : List Op} :
-      Balanced h1 → Balanced h2 → Balanced (.call k child slot orig fpw :: h1 ++ .ret :: h2)
-
-/-- every op of the history is well formed in the state it is executed in -/
-def WFRun (m : M) : List Op → Prop
-  | [] => True
-  | op :: r => WellFormedOp m op ∧ WFRun (step Fix.all m op) r
-
-theorem run_append (fx : Fix) (m : M) (a b : List Op) : run fx m (a ++ b) = run fx (run fx m a) b := by
-  simp [run, List.foldl_append]
-
-theorem WFRun_append {m : M} {a b : List Op} (h : WFRun m (a ++ b)) : WFRun m a ∧ WFRun (run Fix.all m a) b := by
-  induction a generalizing m with
-  | nil => exact ⟨trivial, h⟩
-  | cons op r ih =>
-    obtain ⟨h1, h2⟩ := h
-    obtain ⟨h3, h4⟩ := ih h2
-    exact ⟨⟨h1, h3⟩, h4⟩
-
-/-- everything that later steps can depend on is the same -/
-structure SameState (m m' : M) : Prop where
-  fs : m'.fs = m.fs
-  ctl : m'.sh.rs.map Ent.c = m.sh.rs.map Ent.c
-  mem : ∀ f ∈ m.fs, m'.sh.mem f.slot = m.sh.mem f.slot
-  recIdx : m'.sh.recIdx = m.sh.recIdx
-  inExc : m'.sh.inExc = m.sh.inExc
-  jbs : m'.sh.jbs = m.sh.jbs
-  rjb : m'.rjb = m.rjb
-
-theorem SameState.trans {a b c : M} (h1 : SameState a b) (h2 : SameState b c) : SameState a c :=
-  ⟨h2.fs.trans h1.fs, h2.ctl.trans h1.ctl,
-    fun f hf => (h2.mem f (by rw [h1.fs]; exact hf)).trans (h1.mem f hf),
-    h2.recIdx.trans h1.recIdx, h2.inExc.trans h1.inExc, h2.jbs.trans h1.jbs, h2.rjb.trans h1.rjb⟩
 
 /-- A balanced history inserted at any point (a signal handler interrupting traced code, itself
     traced or not, calling whatever it likes as long as everything returns) leaves the machine in
     step and the state unchanged: same frames, same shadow entries, same content of every live
     return slot, same depth counter, same jmp_buf copies. -/
-theorem c11_signal_transparent {h : List Op} (hb : Balanced h) :
-    ∀ {m : M}, Inv m → m.sh.inExc = false → WFRun m h →
-      Inv (run Fix.all m h) ∧ SameState m (run Fix.all m h) := by
-  induction hb with
-  | nil => intro m hi _ _; exact ⟨hi, ⟨rfl, rfl, fun _ _ => rfl, rfl, rfl, rfl, rfl⟩⟩
-  | @wrap k child slot orig fpw h1 h2 _ _ ih1 ih2 =>
-    intro m hi hx hw
-    obtain ⟨hwc, hw'⟩ := hw
-    obtain ⟨hw1, hw''⟩ := WFRun_append hw'
-    obtain ⟨hwr, hw2⟩ := hw''
-    have hrun : run Fix.all m (.call k child slot orig fpw :: h1 ++ .ret :: h2) =
-        run Fix.all (step Fix.all (run Fix.all (step Fix.all m (.call k child slot orig fpw)) h1) .ret) h2 := by
-      show run Fix.all (step Fix.all m _) (h1 ++ .ret :: h2) = _
-      rw [run_append]; rfl
-    rw [hrun]
-    -- the call
-    have hi1 := inv_call hi hwc
-    obtain ⟨c1, c2, c3, c4, c5, c6⟩ := call_frame hi hx hwc
-    -- the nested history
-    obtain ⟨hi2, s12⟩ := ih1 hi1 c2 hw1
-    have hx2 : (run Fix.all (step Fix.all m (.call k child slot orig fpw)) h1).sh.inExc = false := by
-      rw [s12.inExc]; exact c2
-    have hf2 : (run Fix.all (step Fix.all m (.call k child slot orig fpw)) h1).fs =
-        ⟨slot, orig, chainOf k child⟩ :: m.fs := by rw [s12.fs]; exact c1
-    -- the return
-    obtain ⟨hi3, _⟩ := ret_spec hi2 hwr hf2
-    obtain ⟨r1, r2, r3, r4, r5⟩ := ret_frame hi2 hx2 hwr hf2
-    have hfs3 : (step Fix.all (run Fix.all (step Fix.all m (.call k child slot orig fpw)) h1) .ret).fs = m.fs := by
-      rw [step_ret_eq _ hi2.nh hf2]
-    have s03 : SameState m (step Fix.all (run Fix.all (step Fix.all m (.call k child slot orig fpw)) h1) .ret) := by
-      obtain ⟨d0, hc0, hd0⟩ := hi.ctl
-      obtain ⟨d3, hc3, hd3⟩ := hi3.ctl
-      have e0 : d0 = [] := hd0 hx
-      have e3 : d3 = [] := hd3 r1
-      subst e0; subst e3
-      refine ⟨hfs3, ?_, ?_, ?_, by rw [r1, hx], by rw [r2, s12.jbs, c3], by rw [r3, s12.rjb, c4]⟩
-      · rw [hc3, hc0, hfs3]
-      · intro g hg
-        have hgs : slot < g.slot := hwc.2.1 g hg
-        by_cases htop : ∃ p ps, expFrames m.fs = p :: ps ∧ g.slot = p.loc
-        · -- the top hooked frame: hooked before and after
-          obtain ⟨p, ps, hp, hgp⟩ := htop
-          rw [hgp, hi3.top r1 p ps (by rw [hfs3]; exact hp), hi.top hx p ps hp]
-        · have hne : ∀ p ps, expFrames m.fs = p :: ps → g.slot ≠ p.loc :=
-            fun p ps hp h => htop ⟨p, ps, hp, h⟩
-          rw [r5 g.slot hne, s12.mem g (by rw [c1]; simp [hg]), c6 g.slot (by omega) (by omega) hne]
-      · rw [r4, s12.recIdx, c5]; simp
-    -- the rest of the history
-    have hx3 : (step Fix.all (run Fix.all (step Fix.all m (.call k child slot orig fpw)) h1) .ret).sh.inExc = false := r1
-    obtain ⟨hi4, s34⟩ := ih2 hi3 hx3 hw2
-    exact ⟨hi4, s03.trans s34⟩
+theorem c11_signal_transparent {h : List Op} (hb : Balanced h) {m : M} (hi : Inv m) (hx : m.sh.inExc = false)
+    (hw : WFRun m h) : Inv (run Fix.current m h) ∧ SameState m (run Fix.current m h) :=
+  rep_signal_transparent hb hi hx hw
 
 /-- the theorem is not vacuous: a handler calling a traced and a PLT function on top of main -/
 example : Balanced [.call .mcount 5 20 3000 29, .call .plt 100 10 3001 0, .ret, .ret] :=
